@@ -517,6 +517,8 @@ func terminated(body string, q byte) bool {
 
 var corruptBytes = []byte{0, '\r', '\n', 0x80, 0xFF, 0xC3, '"', '\'', '`', '\\', '/', '{', '}', '(', ')', '[', ']', ';', '.', '0', '8', 'e', 'x', '=', '+', '-', '!', '&', '|', ' ', ',', ':', 'a', '$', '#', '@', '~', '?', '^', '<', '*', '%', 0x7F, 0x01, 0xE2}
 
+func ByteFault(ch *kernel.Chooser, src string) Fault { return byteFault(ch, src) }
+
 func byteFault(ch *kernel.Chooser, src string) Fault {
 	if len(src) == 0 {
 		return Fault{Kind: "byte", Text: string(corruptBytes[ch.Choose(len(corruptBytes))])}
